@@ -3,6 +3,7 @@ import Mathlib.Tactic.Ring
 import Mathlib.Tactic.Linarith
 import Mathlib.Algebra.Order.Field.Basic
 import Mathlib.Algebra.Order.Ring.Abs
+import Mathlib.Tactic.FieldSimp
 /-
 Helper lemmas for C06: finite sums over tabulated vectors, linear functionals tracked through the
 reaction updates (single / parallel / series / system), linearity of the heat accounting in its
@@ -242,3 +243,146 @@ theorem collect_of_ok {α : Type} (f : Nat → Except Err α) (g : Nat → α) (
     simp [tab, List.range_succ]
 
 end ThermoVerif.ReactionEnergy
+
+/-! ### Definitions and helper lemmas used by `Props/C06.lean` (kept here so that the obligations counted there are
+property statements only) -/
+namespace ThermoVerif.Props.C06
+open ThermoVerif.ReactionEnergy
+
+set_option linter.unusedSectionVars false
+set_option linter.unusedVariables false
+
+variable {α : Type} [Field α] [LinearOrder α] [IsStrictOrderedRing α]
+
+/-- enthalpy level of a phase at 298.15 K relative to the solid -/
+def level (hvap hfus : α) : Phase → α
+  | .s => 0
+  | .l => hfus
+  | .g => hfus + hvap
+  | _ => 0
+
+/-- the phases the table knows -/
+def Std (p : Phase) : Prop := p = .s ∨ p = .l ∨ p = .g
+
+instance (p : Phase) : Decidable (Std p) := by unfold Std; infer_instance
+
+theorem latent_level_of_std (hvap hfus : α) (ref ph : Phase) (hr : Std ref) (hp : Std ph) :
+    latent hvap hfus ref ph = .ok (level hvap hfus ph - level hvap hfus ref) := by
+  rcases hr with rfl | rfl | rfl <;> rcases hp with rfl | rfl | rfl <;> simp [latent, level]
+  all_goals ring
+
+theorem latent_level_of_ok (hvap hfus : α) (ref ph : Phase) (v : α) (h : latent hvap hfus ref ph = .ok v) :
+    v = level hvap hfus ph - level hvap hfus ref := by
+  cases ref <;> cases ph <;> simp [latent, level] at h ⊢ <;> (subst h; ring)
+
+/-- latent heat of species `s` relative to its chemical's reference phase (0 for an untagged reaction) -/
+def Lam (pkg : Pkg α) (phases : List Phase) (s : Nat) : α :=
+  match phases[s / pkg.N]? with
+  | none => 0
+  | some ph => level (get pkg.hvap (s % pkg.N)) (get pkg.hfus (s % pkg.N)) ph
+               - level (get pkg.hvap (s % pkg.N)) (get pkg.hfus (s % pkg.N)) (refOf pkg (s % pkg.N))
+
+/-- 1 on the molar basis, MW on the weight basis -/
+def wOf (pkg : Pkg α) (basis : Basis) (s : Nat) : α :=
+  match basis with
+  | .mol => 1
+  | .wt => get pkg.mw (s % pkg.N)
+
+theorem latS_ok_eq (pkg : Pkg α) (phases : List Phase) (nu : List α) (s : Nat) (v : α)
+    (h : latS pkg phases nu s = .ok v) (hnu : get nu s ≠ 0) : v = Lam pkg phases s := by
+  unfold latS at h
+  unfold Lam
+  cases hp : phases[s / pkg.N]? with
+  | none => rw [hp] at h; simp at h; simp [h]
+  | some ph =>
+    rw [hp] at h
+    simp only [hnu, if_false] at h
+    exact latent_level_of_ok _ _ _ _ _ h
+
+/-- species `s` is usable by `dH`: untouched, untagged, in its reference phase, or a change between s / l / g -/
+def ValidAt (pkg : Pkg α) (phases : List Phase) (nu : List α) (s : Nat) : Prop :=
+  get nu s = 0 ∨ ∀ ph, phases[s / pkg.N]? = some ph →
+    (refOf pkg (s % pkg.N) = ph ∨ (Std (refOf pkg (s % pkg.N)) ∧ Std ph))
+
+theorem latS_defined (pkg : Pkg α) (phases : List Phase) (nu : List α) (s : Nat) (h : ValidAt pkg phases nu s) :
+    ∃ v, latS pkg phases nu s = .ok v := by
+  unfold latS
+  cases hp : phases[s / pkg.N]? with
+  | none => exact ⟨0, rfl⟩
+  | some ph =>
+    by_cases h0 : get nu s = 0
+    · exact ⟨0, by simp [h0]⟩
+    · rcases h with h | h
+      · exact absurd h h0
+      · simp only [h0, if_false]
+        rcases h ph hp with heq | ⟨hr, hq⟩
+        · exact ⟨0, by simp [latent, heq]⟩
+        · exact ⟨_, latent_level_of_std _ _ _ _ hr hq⟩
+
+/-- heats of formation per basis unit (`Hf`, or `Hf/MW` on the weight basis) over the species -/
+def hfB (pkg : Pkg α) (basis : Basis) (S : Nat) : List α := tab S (fun s => coef pkg basis [] s)
+
+/-- latent heats per basis unit -/
+def latB (pkg : Pkg α) (basis : Basis) (S : Nat) (lat : List α) : List α :=
+  tab S (fun s => coef pkg basis lat s - coef pkg basis [] s)
+
+/-- `dH` = formation part + latent part -/
+theorem dHcore_split (pkg : Pkg α) (basis : Basis) (S : Nat) (lat : List α) (r : Rxn α) :
+    dHcore pkg basis S lat r = lin S (hfB pkg basis S) r + lin S (latB pkg basis S lat) r := by
+  unfold dHcore lin dotN
+  rw [← mul_add, ← sumN_add]
+  congr 1
+  apply sumN_congr
+  intro s hs
+  unfold hfB latB
+  rw [get_tab _ hs, get_tab _ hs]; ring
+
+theorem hfStream_fromBasis (pkg : Pkg α) (basis : Basis) (S : Nat) (m : List α) :
+    hfStream pkg S (fromBasis pkg basis S m) = dotN S (hfB pkg basis S) m := by
+  unfold hfStream dotN hfB
+  apply sumN_congr
+  intro s hs
+  rw [get_tab _ hs]
+  cases basis
+  · simp only [fromBasis, get_tab _ hs, coef, get_nil]; ring
+  · simp only [fromBasis, get_tab _ hs, coef, get_nil, weight]; ring
+
+theorem hfStream_toBasis (pkg : Pkg α) (basis : Basis) (S : Nat) (n : List α)
+    (hw : basis = .wt → ∀ s, s < S → weight pkg s ≠ 0) :
+    dotN S (hfB pkg basis S) (toBasis pkg basis S n) = hfStream pkg S n := by
+  unfold hfStream dotN hfB
+  apply sumN_congr
+  intro s hs
+  rw [get_tab _ hs]
+  cases basis
+  · simp only [toBasis, get_tab _ hs, coef, get_nil]; ring
+  · have := hw rfl s hs
+    simp only [toBasis, get_tab _ hs, coef, get_nil, weight, add_zero] at this ⊢
+    field_simp
+
+theorem dotN_clamp_of_nonneg (S : Nat) (c m : List α) (h : ∀ s, s < S → ¬ get m s < 0) :
+    dotN S c (clamp S m) = dotN S c m := by
+  unfold dotN clamp
+  apply sumN_congr
+  intro s hs
+  rw [get_tab _ hs]
+  simp [h s hs]
+
+/-- `adiabatic_reaction` reacts exactly like the isothermal call … -/
+theorem adiabatic_flows (tol : α) (pkg : Pkg α) (basis : Basis) (S : Nat) (bs : List (Block α)) (H0 Q : α)
+    (n n' : List α) (target : α) (h : adiabatic tol pkg basis S bs H0 Q n = .ok (n', target)) :
+    reactStream tol pkg basis S bs n = .ok n' ∧ target = (hnet pkg S H0 n + Q) - hfStream pkg S n' := by
+  unfold adiabatic at h
+  cases hr : reactStream tol pkg basis S bs n with
+  | error e => rw [hr] at h; cases h
+  | ok x =>
+    rw [hr] at h
+    simp only [Except.ok.injEq, Prod.mk.injEq] at h
+    obtain ⟨h1, h2⟩ := h
+    subst h1
+    exact ⟨rfl, h2.symm⟩
+
+theorem toOption_some {ε β : Type} {x : Except ε β} {v : β} (h : x.toOption = some v) : x = .ok v := by
+  cases x <;> simp [Except.toOption] at h ⊢; exact h
+
+end ThermoVerif.Props.C06
